@@ -160,6 +160,8 @@ def witnesses(tier, seed):
         for i, asg in enumerate(['=', '+=', '-=', '*=']):
             for j, mkb in enumerate([lambda: Node('cmp', '<', [L('a'), L('b')]), lambda: Node('logic', '&&', [Node('cmp', '>', [L('a'), L('c')]), Node('cmp', '!=', [L('b'), L('c')])]),
                                      lambda: Node('not', '!', [Node('cmp', '<=', [L('a'), S])])]):
+                if j == 2 and asg != '=':
+                    continue     # compound assignment of a logical-not expression is rejected by the library under every configuration: not offered
                 for n in (1, 3, 4, 7, 8, 9, 16, 17):
                     W.append(mk(t, n, mkb(), asg, 'boolrhs%d' % j, dest_type=t))
     # integer division (vector/vector, vector/scalar, scalar/vector; '=' and '/='): appended after the frozen corpus.
